@@ -214,6 +214,8 @@ structure ProbStep where
   cov : Rat
   vy : Rat
   gt : Bool
+  /-- the shuffled masked pixels are, position by position, the original ones (then rᵢ is r, bit for bit) -/
+  same : Bool
 
 /-- `r` and every `rᵢ` are computed over `x[mask]` and `shuffledᵢ[mask]` with the mask as given -/
 def probSteps (x y : Img Rat) (mask : Nat → Nat → Bool) (b : Nat) (part : Bool)
@@ -222,7 +224,8 @@ def probSteps (x y : Img Rat) (mask : Nat → Nat → Bool) (b : Nat) (part : Bo
   let ys := masked y mask
   (shuffleSeq y mask b part sigmas).map (fun yi =>
     let yis := masked yi mask
-    { cov := cov xs yis, vy := var yis, gt := rGt (cov xs yis) (var yis) (cov xs ys) (var ys) })
+    { cov := cov xs yis, vy := var yis, gt := rGt (cov xs yis) (var yis) (cov xs ys) (var ys),
+      same := yis == ys })
 
 def pearsonProbability (x y : Img Rat) (mask : Nat → Nat → Bool) (b : Nat) (part : Bool)
     (sigmas : List (List Nat)) : Rat :=
